@@ -191,6 +191,41 @@ theorem omit_always_allowed (h : List Char) (rest : List HTok) (hm : h ∈ omitt
     · simp only [hcl, Bool.true_and] at h1; rw [h1] at hc; exact absurd hc (by decide)
     · exact h1
 
+/-! ## `</optgroup>` -/
+
+theorem omitOptgroupEnd_next (rest : List HTok) (h : omitOptgroupEnd rest = true) :
+    nextOf rest = .other ∨ nextOf rest = .eof ∨ (∃ n, nextOf rest = .end_ n) ∨
+    nextOf rest = .start "optgroup".toList := by
+  induction rest with
+  | nil => right; left; rfl
+  | cons t r ih =>
+    cases t with
+    | text d tm =>
+      simp only [omitOptgroupEnd] at h
+      simp only [nextOf]
+      split
+      · exact ih h
+      · left; rfl
+    | comment d tx => simp only [omitOptgroupEnd] at h; simp only [nextOf]; exact ih h
+    | endTag n d => right; right; left; exact ⟨n, rfl⟩
+    | startTag n a =>
+      simp only [omitOptgroupEnd] at h
+      right; right; right
+      simp only [nextOf]; rw [hashIs_eq' h]
+    | doctype => simp [omitOptgroupEnd] at h
+    | svg d => simp [omitOptgroupEnd] at h
+    | math d => simp [omitOptgroupEnd] at h
+    | template d => simp [omitOptgroupEnd] at h
+
+theorem omit_optgroup_allowed (rest : List HTok) (h : omitOptgroupEnd rest = true)
+    (hc : conformingAfter "optgroup".toList (nextOf rest) = true) :
+    mayOmitEnd "optgroup".toList (nextOf rest) = true := by
+  rcases omitOptgroupEnd_next rest h with e | e | ⟨n, e⟩ | e
+  · rw [e] at hc; exact absurd hc (by decide)
+  · rw [e]; decide
+  · rw [e]; simp [mayOmitEnd, isDocElem, omitAtEnd, is]
+  · rw [e]; decide
+
 theorem alwaysOmit_mem (e : List Char) (h : alwaysOmitEnd.any (hashIs e) = true) : e ∈ omittedNames := by
   simp only [List.any_eq_true] at h
   obtain ⟨x, hx, hh⟩ := h
